@@ -244,6 +244,24 @@ pub fn plan_c01(tier: &str, seed: u64, kem_pairs: usize) -> Plan {
                 pols.push(rng.pick(&two).clone());
             }
         }
+        // '*' as an operand: neutral under AND, absorbing under OR (written on either side, nested)
+        let mut stars: Vec<String> = vec![];
+        if !clauses.is_empty() {
+            for _ in 0..3 {
+                let c = rng.pick(&clauses).join(" && ");
+                let d = rng.pick(&clauses).join(" && ");
+                let form = match rng.below(6) {
+                    0 => format!("{c} || *"),
+                    1 => format!("(*) || {c}"),
+                    2 => format!("{c} && *"),
+                    3 => format!("(*) && {c}"),
+                    4 => format!("({c} || *) && {d}"),
+                    _ => format!("{d} && ((*) || {c})"),
+                };
+                stars.push(form);
+            }
+            pols.extend(stars.iter().cloned());
+        }
         for p in &pols {
             lines.push(format!("usk_rights M0 t:{}", h(p)));
             lines.push(format!("enc_rights M0 t:{}", h(p)));
@@ -262,6 +280,13 @@ pub fn plan_c01(tier: &str, seed: u64, kem_pairs: usize) -> Plan {
                 let e = rng.pick(&two).clone();
                 lines.push(format!("covers M0 K1 t:{} t:{}", h(&u), h(&e)));
             }
+        }
+        for st in &stars {
+            // a key whose policy mentions '*' against a plain clause, and a plain key against a target mentioning '*'
+            let e = rng.pick(&singles).clone();
+            lines.push(format!("covers M0 K1 t:{} t:{}", h(st), h(&e)));
+            let u = rng.pick(&singles).clone();
+            lines.push(format!("covers M0 K1 t:{} t:{}", h(&u), h(st)));
         }
         // second phase: the same questions on the structure after edits (rename, delete + re-add, insertion in
         // the middle of a hierarchy, store / load of the master key), made effective by an update
@@ -393,6 +418,10 @@ pub fn profile_for(prop: &str, tier: &str) -> Profile {
         "C11" => {
             p.hybrid_pct = 50;
             p.w_roundtrip = 3;
+            // re-encapsulation after the classic targets of a mixed encapsulation were disabled / deleted
+            p.w_recaps = 5;
+            p.w_encaps = 6;
+            p.w_edits = [2, 1, 4, 4, 2, 4];
         }
         "C13" => {
             p.w_roundtrip = 8;
